@@ -66,7 +66,8 @@ CHECKS = {
             "state, exit dominated by the forgetting of both registries, return_exceptions wiring, no other raising step.",
             "SNAPSHOT-FORGET data-flow rule + effect closure + dominance", "5 C13", TB + "Declined: overlapping flushes as a temporal statement (covered per call by the snapshot rule)."),
     "C14": ("Idiom-based: ids drawn from the reversed running registry, prefix bounded by num with the test before the append, delegated once to cancel(*ids), same list returned, "
-            "stop_all == stop(num_running); the bound is the num parameter itself (`num or x` makes 0 mean all); cancel's own rules shared. Unrecognised computations are inconclusive.",
+            "stop_all == stop(num_running); the bound is the num parameter itself (`num or x` makes 0 mean all); also islice / slice / takewhile forms and helpers returning the list; "
+            "positive rule: the value of an id never steers the selection (ids have gaps); cancel's own rules shared. Unrecognised computations are inconclusive.",
             "syntax-directed idiom recognition + CFG dominance", "5 C14", TB + "Declined: nothing else is structural. F1 shared."),
     "C15": ("Getter must read configuration-only paths (violated: F5a), setter must not overwrite the occupancy-dependent counter with its parameter (F5b), raising the limit must wake "
             "waiters (F5c), validation precedes the write with the exact comparison, the semaphore object waiters are parked on is bound once.",
@@ -78,7 +79,7 @@ CHECKS = {
             TB + "Declined: the bytes on the wire; help text for every width (argparse run-time behaviour). F6 is a recorded known finding."),
     "C17": ("Dispatch structure of _exec_method_and_respond (self, positional kinds in signature order, *args after, rest by keyword, through return_or_exception), RESULT-USED at all "
             "three return_or_exception call sites with the reply forms ok-if-None-else-str / str, add_function_arg mapping incl. the bool-defaults-to-False table over the pool classes, "
-            "return_or_exception semantics (called once, awaited under the coroutine guard, Exception returned); TOKENS (what reaches parse_args is the line split at blanks, words unchanged); annotation table shared (F6).",
+            "return_or_exception semantics (called once, awaited under the coroutine guard, Exception returned, nothing but cancellation escapes - call and await); TOKENS (what reaches parse_args is the line split at blanks, words unchanged); annotation table shared (F6).",
             "syntax-directed structure rules + RESULT-USED data-flow + path counting", "5 C17",
             TB + "Declined: equality of effects for every argument value (translation over run-time values). F6 shared (known finding)."),
     "C18": ("HATCHES (all four argparse escape hatches overridden, no print/sys.std*/exit in parser, session, server; positive control in client), per-iteration protocol of listen by "
